@@ -708,6 +708,8 @@ type zzC15Act struct {
 	Mode string   `json:"mode"`
 	Kind string   `json:"kind"`
 	Due  []string `json:"due"`
+	// List is the list whose URL a set_url request tries to change.
+	List string `json:"list,omitempty"`
 }
 
 type zzC15Cfg struct {
@@ -731,6 +733,9 @@ type zzC15Tour struct {
 	Block []string    `json:"block"`
 	Atoms []string    `json:"atoms"`
 	Steps []zzC15Step `json:"steps"`
+	// GoOn makes the walk continue after a step in which nothing but the
+	// remembered checksum disagrees (to show what that leads to).
+	GoOn bool `json:"go_on"`
 }
 
 type zzC15List struct {
@@ -863,6 +868,8 @@ func (w *zzC15World) start() (err error) {
 		return err
 	}
 
+	// As Start does, without starting the update loop.
+	w.d.filtersInitializerChan = make(chan filtersInitializerParams, 1)
 	w.d.RegisterFilteringHandlers()
 	w.d.EnableFilters(false)
 
@@ -1226,6 +1233,22 @@ func (w *zzC15World) step(act *zzC15Act, script map[string]zzC15Beh) (o *zzC15St
 		rec := httptest.NewRecorder()
 		h(rec, httptest.NewRequest(http.MethodPost, "/control/filtering/refresh", strings.NewReader(body)))
 		o.HTTPCode = rec.Code
+	case act.A == "seturl":
+		// The admin points the list at another location (same server, same
+		// script: the download from there fails) through the real handler.
+		l := w.list(act.List)
+		h := w.mux[http.MethodPost+" /control/filtering/set_url"]
+		if l == nil || h == nil {
+			return nil, fmt.Errorf("no set_url handler or list %q", act.List)
+		}
+
+		body, _ := json.Marshal(map[string]any{
+			"url": l.url, "whitelist": !l.block,
+			"data": map[string]any{"name": "list " + l.name, "url": l.url + "?moved=1", "enabled": true},
+		})
+		rec := httptest.NewRecorder()
+		h(rec, httptest.NewRequest(http.MethodPost, "/control/filtering/set_url", bytes.NewReader(body)))
+		o.HTTPCode = rec.Code
 	case act.A == "refresh" && act.Mode == "sched":
 		// Time passes: the lists in due were last updated two intervals ago,
 		// the others just now.
@@ -1379,6 +1402,10 @@ func zzC15RunTour(tour *zzC15Tour, out *zzWriter, outMu *sync.Mutex) (steps, bad
 		}
 
 		put(row)
+		if tour.GoOn && len(diffs) == 1 && diffs[0] == "sum" {
+			continue
+		}
+
 		put(map[string]any{"kind": "truncated", "tour": tour.ID, "step": i, "lost": len(tour.Steps) - i - 1})
 
 		return steps, bad
